@@ -21,6 +21,9 @@ From Coq Require Import List ZArith Bool Arith.
 From PG Require Import Base.Ops Base.Vec.
 Import ListNotations.
 
+(* integer difference of two naturals (kept as one function so that its parametricity is a one-line realizer) *)
+Definition zdiff (a b : nat) : Z := (Z.of_nat a - Z.of_nat b)%Z.
+
 Section BS.
 Context {T : Type} (o : fops T).
 Notation "0" := (r0 (fr o)). Notation "1" := (r1 (fr o)).
@@ -38,7 +41,7 @@ Definition tmax (a b : T) : T := if leb a b then b else a.
 (* augmented knots of b_spline_basis for (augmented) size n and order k.  Only j <= n+k is used by the code;
    for j > n+k the model keeps the 1e-9 shift so that the sequence stays increasing. *)
 Definition knot (n k : nat) (j : nat) : T :=
-  let base := ofZ (Z.of_nat j - Z.of_nat k)%Z * (1 / ofZ (Z.of_nat n - Z.of_nat k)%Z) in
+  let base := ofZ (zdiff j k) * (1 / ofZ (zdiff n k)) in
   if Nat.leb (Nat.add n k) j then base + eps9 else base.
 
 Definition haar (t : nat -> T) (x : T) (i : nat) : T :=
@@ -81,7 +84,7 @@ Fixpoint grads (t : nat -> T) (k i : nat) (prev : list T) : list T :=
   match prev with
   | a :: tl =>
       match tl with
-      | b :: _ => (ofZ (Z.of_nat k) * (a / (t (Nat.add i k) - t i) - b / (t (S (Nat.add i k)) - t (S i))))
+      | b :: _ => (ofZ (zdiff k O) * (a / (t (Nat.add i k) - t i) - b / (t (S (Nat.add i k)) - t (S i))))
                   :: grads t k (S i) tl
       | [] => []
       end
